@@ -165,6 +165,25 @@ def requests():
                 cnt[s_] = cnt.get(s_, 0) + int(o.exponent)
         bad |= {str(s_) for s_, n_ in cnt.items() if n_ > 2}
     share["norm_factor(4) internal products"] = sorted(bad)
+    # third-order precursor states on a ground state with first-order
+    # singles: wavefunctions used twice in one projector term must not share
+    # their contracted indices
+    isr3 = adcgen.IntermediateStates(
+        adcgen.GroundState(adcgen.Operators(), first_order_singles=True),
+        "pp")
+    for bk in ("bra", "ket"):
+        pre = Expr(isr3.precursor(3, "ph", bk, "ia")).expand()
+        bad = set()
+        for t in pre.terms:
+            cnt = {}
+            for o in t.objects:
+                if o.sympy.is_number:
+                    continue
+                for s_ in o.idx:
+                    if o.exponent.is_integer:
+                        cnt[s_] = cnt.get(s_, 0) + int(o.exponent)
+            bad |= {str(s_) for s_, n_ in cnt.items() if n_ > 2}
+        share[f"precursor(3,ph,{bk}) with singles"] = sorted(bad)
     return out, share
 
 
